@@ -88,6 +88,16 @@ def run(ctx):
     eq(ctx, "R1", "mix_values(a, b, f)[0] = a0*f + b0*(1-f)", r[0], x1 * t + y1 * (1 - t), site)
     eq(ctx, "R1", "mix_values(a, b, f)[1] = a1*f + b1*(1-f)", r[1], x2 * t + y2 * (1 - t), site)
 
+    from ptstat.symval import Vec
+    ts = sp.symbols("t1:4", real=True)
+    x3, y3 = sp.Symbol("x3", real=True), sp.Symbol("y3", real=True)
+    rv = I.call(mv, [(x1, x2, x3), (y1, y2, y3), Vec(ts)], {})
+    okv = isinstance(rv, tuple) and len(rv) == 3 and all(isinstance(c_, Vec) and len(c_) == 3 for c_ in rv)
+    ctx.check(okv, "R1", "mix_values with a vector of fractions: every component is mixed at every fraction", f"returned {_s(rv)}", site)
+    if okv:
+        for i_, (a_, b_) in enumerate(((x1, y1), (x2, y2), (x3, y3))):
+            for j_, t_ in enumerate(ts):
+                eq(ctx, "R1", f"mix_values(a, b, [t1, t2, t3])[{i_}][{j_}] = a{i_}*t{j_ + 1} + b{i_}*(1 - t{j_ + 1})", rv[i_].items[j_], a_ * t_ + b_ * (1 - t_), site)
     # the four reference SLDs, computed directly
     def direct(atoms, density):
         return I.call(nsld, [dict(atoms)], {"density": density, "wavelength": lam})
@@ -108,6 +118,16 @@ def run(ctx):
     for i, nm in enumerate(("real", "imaginary")):
         eq(ctx, "R2", f"{nm} SLD at D2O fraction d = SLD of the compound with a fraction d of H[1] -> D, rest -> H (same cell volume)",
            got[i], want[i], s_sld)
+    # the density may also come as a keyword (density= / natural_density=) with a compound that carries none
+    got_kw = I.call(dsld, [dict(comp)], dict(kw, density=rho, volume_fraction=sp.Integer(1), D2O_fraction=d))
+    for i, nm in enumerate(("real", "imaginary")):
+        eq(ctx, "R2", f"{nm} SLD with density= as a keyword = SLD of the same compound carrying that density", got_kw[i], got[i], s_sld)
+    ratio_nat = I.getattr(mol, "natural_mass_ratio") if False else None
+    molnd = I.call(fm, [dict(comp)], {"natural_density": rho})
+    got_nd_obj = I.call(dsld, [molnd], dict(kw, volume_fraction=sp.Integer(1), D2O_fraction=d))
+    got_nd_kw = I.call(dsld, [dict(comp)], dict(kw, natural_density=rho, volume_fraction=sp.Integer(1), D2O_fraction=d))
+    eq(ctx, "R2", "real SLD with natural_density= as a keyword = SLD of the same compound carrying that natural density",
+       got_nd_kw[0], got_nd_obj[0], s_sld)
     got0 = I.call(dsld, [mol], dict(kw, volume_fraction=sp.Integer(0), D2O_fraction=d))
     for i, nm in enumerate(("real", "imaginary", "incoherent")):
         eq(ctx, "R1", f"{nm} SLD at volume fraction 0 = H2O/D2O solvent mixture", got0[i], d * D2O[i] + (1 - d) * H2O[i], s_sld)
@@ -172,8 +192,8 @@ def run(ctx):
     nm, _ = I2.call(I2.global_name("nsf", "D2O_match"), [None], {})
     eq(ctx, "R1", "fasta.D2Omatch(Hsld, Dsld) = 100 * the nsf match equation with the 20 C water SLDs", fm_, 100 * nm,
        fsite(ctx, "fasta.D2Omatch"))
-    ctx.floor("R1", 16)
-    ctx.floor("R2", 7)
+    ctx.floor("R1", 26)
+    ctx.floor("R2", 10)
 
     # R3 roles and solvents
     ctx.check(set(seen) == {"H2O@0.9982n", "D2O@0.9982n"}, "R3",
